@@ -317,6 +317,13 @@ Example C04_lender_example :
   /\ Mach.run (Mach.init 1) [ (0, ALend 1); (0, ARelease) ]%nat = Mach.Stuck
   /\ Mach.run (Mach.init 1) [ (0, ALend 1); (0, AProbe 0) ]%nat = Mach.Stuck.
 Proof. exact lender_edits_other_handle. Qed.
+(* ... and move its other handles into new threads; the lent one stays *)
+Example C04_lender_spawn_example :
+  Mach.is_ok (Mach.run (Mach.init 2) [ (0, AClone); (0, ALend 1); (0, ASpawn 2 1); (1, AReadB); (2, ARead); (2, AProbe 0); (2, ARelease);
+                        (1, ACloneB); (1, ARelease); (0, AJoinB 1); (0, AJoin 2); (0, AProbe 0); (0, AWrite); (0, ARelease);
+                        (0, Mach.AFence); (0, AFree) ])%nat = true
+  /\ Mach.run (Mach.init 2) [ (0, ALend 1); (0, ASpawn 2 1) ]%nat = Mach.Stuck.
+Proof. exact lender_spawns_other_handle. Qed.
 
 Print Assumptions C04_atomic_sites.
 Print Assumptions C04_protocol_safe_all_schedules.
@@ -359,3 +366,4 @@ Print Assumptions C04_contents_example.
 Print Assumptions C04_lender_release_enabled.
 Print Assumptions C04_lender_probe_not_exclusive.
 Print Assumptions C04_lender_example.
+Print Assumptions C04_lender_spawn_example.
